@@ -53,9 +53,9 @@ def Batch.equivB (a b : Batch) : Bool :=
   a.name == b.name && a.byName == b.byName && a.tmax == b.tmax && mapEqB a.tags b.tags &&
   listEquivB BPoint.equivB a.points b.points
 
-/-- The map with the given keys whose value at k is `f k`. -/
+/-- The map with the given keys whose value at k is `f k` (a key listed twice gives the same entry twice: same map). -/
 def tabulate {α : Type} (keys : List String) (f : String → Option α) : List (String × α) :=
-  keys.eraseDups.filterMap (fun k => (f k).map (fun v => (k, v)))
+  keys.filterMap (fun k => (f k).map (fun v => (k, v)))
 
 /-! ## Histories -/
 
@@ -230,11 +230,18 @@ def evalShadowed (c : EvalCfg) (fields : Fields) (tags : Tags) : Bool :=
 
 /-! ## flatten -/
 
-/-- The field name a point contributes for one of its fields (`none`: the point lacks one of the `on` tags). -/
+/-- Strings joined by a delimiter. -/
+def joinWith (delim : String) : List String → String
+  | [] => ""
+  | v :: vs => vs.foldl (fun acc x => acc ++ delim ++ x) v
+
+/-- The field name a point contributes for one of its fields (`none`: the point lacks one of the `on` tags): the values
+of the `on` tags joined by the delimiter, then (unless dropped) the delimiter — only when that prefix is not empty — and
+the original field name. -/
 def specFlatName (c : FlattenCfg) (tags : Tags) (fname : String) : Option String :=
   if c.on.all (fun t => (aget tags t).isSome) then
-    let pre := c.delim.intercalate (c.on.map (tagOr tags))
-    some (if c.drop then pre else if pre.length > 0 then pre ++ c.delim ++ fname else fname)
+    let pre := joinWith c.delim (c.on.map (tagOr tags))
+    some (if c.drop then pre else pre ++ (if pre.length > 0 then c.delim else "") ++ fname)
   else none
 
 /-- Fields of a bucket: later points win on equal names. -/
